@@ -257,7 +257,17 @@ def monitor (pid : String) (c0 a : List String) : String :=
       (match pid with
        | "C03" => Spec.Mon.check3 cfg evs ++ Spec.AuthMon.checkGreetFlavour cfg.lmtp input evs
        | "C04" => Spec.Mon.check4 cfg.lmtp drecs evs
-       | "C08" => Spec.Mon.check8 evs
+       | "C08" =>
+         if tag == "TAG=logoutcount" then
+           -- `Close` arrives from another goroutine while `NewSession` is still running (the NS event is logged on entry): the order of
+           -- Logout and the close of the socket is then not fixed, but the session the backend returns still gets exactly one Logout
+           let created := evs.filterMap fun e => match e with | .ns id _ _ r => if r == .ok then some id else none | _ => none
+           let los := evs.filterMap fun e => match e with | .logout id => some id | _ => none
+           (created.filterMap fun id =>
+              let k := (los.filter (· == id)).length
+              if k == 1 then none else some s!"C08 a session the backend returned received {k} Logout calls instead of exactly one") ++
+           (if los.all (fun id => created.contains id) then [] else ["C08 Logout on a session that was never created"])
+         else Spec.Mon.check8 evs
        | "C09" => Spec.Mon.check9 cfg evs ++ Spec.AuthMon.check input evs ++
            (Spec.Mon.check10 cfg (tlsMode == "implicit") evs).filter (fun r => "C09".isPrefixOf r)
        | "C10" => Spec.Mon.check10 cfg (tlsMode == "implicit") evs
